@@ -17,6 +17,7 @@ LEVEL = 'proof'
 EXPLANATION = ('Deductive verification of the real line-shape functions (Cython sources parsed on every run): loop '
                'invariants for the bin loops, call-argument obligations for every add_line, algebraic lemmas for the '
                'weights.  Discharged by z3 for all inputs and any number of bins / multiplet components.')
+EXPLANATION += '  GaussianQuadrature (the bin integrator, integrators1d.pyx): cache-layout representation invariant proved for _build_cache, preserved by the min_order / max_order setters; evaluate() proved to return a Gauss-Legendre rule of some order in [min_order, max_order].'
 
 G = "cherab/core/model/lineshape/gaussian.pyx"
 M = "cherab/core/model/lineshape/multiplet.pyx"
